@@ -99,6 +99,24 @@ let run_case opname t =
         | SOk a -> join [ codes_s (s_to_string a zero one); codes_s (s_to_string a zero chr1) ]
         | _ -> "na" in
       (m, p)
+  | "wstr" | "cistr" ->
+      (* string constructor + to_string with wchar_t: the model is generic in the character code;
+         cistr: a traits class with a coarser eq(): the codes of the case line are the eq-classes *)
+      let bits = next_nat t in
+      let s = next_nlist t in
+      let pos = next_nat t in
+      let n = next_n t in
+      let zero = next_n t in
+      let one = next_n t in
+      let w = nat_of_int 64 in
+      let mx = ones0 w in
+      let m = match of_string bits w mx mx s pos n zero one with
+        | Ok ws -> join [ codes_s (to_string_m bits w mx ws chr0 chr1); codes_s (to_string_m bits w mx ws zero one) ]
+        | _ -> "contract" in
+      let p = match s_of_string bits s pos n zero one with
+        | SOk a -> join [ codes_s (s_to_string a chr0 chr1); codes_s (s_to_string a zero one) ]
+        | _ -> "contract" in
+      (m, p)
   | "ct" ->
       (* the two fixed scripts the harness evaluates in a constant expression *)
       let kind = next_str t in
